@@ -128,6 +128,8 @@ pub open spec fn adaptive_ok(info: AdaptiveFeeInfo, tick_spacing: u16) -> bool {
                 (amount_remaining > 0 && adjusted_sqrt_price_limit != curr_sqrt_price) ==> (if a_to_b { (curr_tick_index as int) < (fee_rate_manager->tick_group_index as int + 1) * g_m0->adaptive_fee_constants.tick_group_size as int }
                     else { curr_tick_index as int >= fee_rate_manager->tick_group_index as int * g_m0->adaptive_fee_constants.tick_group_size as int }), //# C14
 //@ inject before /while amount_remaining > 0 && adjusted_sqrt_price_limit != curr_sqrt_price \{/
+    // C06 / C07: the LP share of this swap's fees accrues to the fee growth of the INPUT token (token A for a->b, token B for b->a), whatever the mode
+    proof { assert(curr_fee_growth_global_input == (if a_to_b { whirlpool.fee_growth_global_a } else { whirlpool.fee_growth_global_b })); } //# C06 C07 C01
     let ghost mut g_lo: int = curr_tick_index as int; let ghost mut g_hi: int = curr_tick_index as int; let ghost mut g_liq: u128 = curr_liquidity;
     let ghost g_m0 = fee_rate_manager; let ghost mut g_upd: bool = false; let ghost mut g_acc: int = 0;
     proof { axiom_price_at(); lemma_new_group(*whirlpool, a_to_b, timestamp, adaptive_fee_info->0); }
@@ -188,6 +190,18 @@ pub open spec fn adaptive_ok(info: AdaptiveFeeInfo, tick_spacing: u16) -> bool {
                     proof { g_liq = next_liquidity; if a_to_b { g_lo = next_tick_index as int - 1; g_hi = next_tick_index as int - 1; } else { g_lo = next_tick_index as int; g_hi = next_tick_index as int; } }
 //@ inject before /let tick_offset = swap_tick_sequence\.get_tick_offset\(/
                 proof { if !next_tick_initialized { if a_to_b { if next_tick_index as int - 1 < g_lo { g_lo = next_tick_index as int - 1; } } else { if next_tick_index as int > g_hi { g_hi = next_tick_index as int; } } } }
+//@ rewrite /Ok\(Box::new\(PostSwapUpdate \{/ => /let result_update = (PostSwapUpdate {/
+//@ rewrite /        next_adaptive_fee_info: fee_rate_manager\.get_next_adaptive_fee_info\(\),\n    \}\)\)/ => /        next_adaptive_fee_info: fee_rate_manager.get_next_adaptive_fee_info(),\n    });\n    Ok(Box::new(result_update))/
+//@ inject before /^    Ok\(Box::new\(result_update\)\)/
+    // result assembly: what is handed to Whirlpool::update_after_swap is the state the loop ended in - liquidity, tick, price, the INPUT token's fee growth,
+    // the protocol share, the LP share (total fee minus protocol share) and the settled reward growths
+    proof { assert(result_update.next_liquidity == curr_liquidity && result_update.next_tick_index == curr_tick_index && result_update.next_sqrt_price == curr_sqrt_price); } //# C05 C03 C01
+    proof { assert(result_update.next_fee_growth_global == curr_fee_growth_global_input && result_update.next_protocol_fee == curr_protocol_fee
+        && result_update.lp_fee as int == fee_sum as int - curr_protocol_fee as int); } //# C06 C07 C01
+    proof { assert(result_update.next_reward_infos == next_reward_infos); } //# C11 C01
+    // the specified side reports what was consumed of the specified amount, the other side what the steps computed
+    proof { assert((if a_to_b == amount_specified_is_input { result_update.amount_a } else { result_update.amount_b }) as int == amount as int - amount_remaining as int
+        && (if a_to_b == amount_specified_is_input { result_update.amount_b } else { result_update.amount_a }) == amount_calculated); } //# C03 C06 C01
 //@ end
 
 pub proof fn lemma_div_chain(n: int, ts: int, gs: int) requires ts > 0, gs > 0, n % ts == 0, ts % gs == 0 ensures n % gs == 0
